@@ -95,9 +95,12 @@ CHECKS = {
               "the failing-input search regenerates code in subprocesses with different PYTHONHASHSEED and histories and compares bytes."),
         design="DESIGN.md §6 C12"),
     "C13": dict(
-        technique="Lean 4 proof (injectivity of the pre-hash encoding modulo digests, tag injectivity, identifier validity) + captured pre-hash strings + separation/stability search",
-        text=("encode_inj (explicit digest-injectivity hypothesis), join_inj, concat_fixed_inj, options_sorted_inj, tag_inj, ident_valid, names_distinct are proved; the strings handed to SHA-1 are captured "
-              "from the real code and compared byte-for-byte with the model; request pairs differing in one ingredient must separate; names are stable across processes/hash seeds/histories."),
+        technique="Lean 4 proof (injectivity of the pre-hash encoding modulo digests, both platform branches; invariance of the expression renumbering under counter relabelling and set iteration order; names from positions) + captured pre-hash strings and renumbering dicts + separation/stability search",
+        text=("encode_inj / encode_inj_win32 (pre-hash string only; explicit digest-injectivity hypothesis), join_inj, concat_fixed_inj, options_sorted_inj, tag_inj, ident_valid, names_distinct (distinct positions ⇒ distinct names, whatever the signatures; "
+              "fails for two integration domains: known finding) are proved; stability: renumbering_invariant, set_order_irrelevant, signature_stable_across_processes over a Lean transcription of the renumbering in naming.py (hypothesis: the expression's own "
+              "coefficients/constants keep their relative creation order — otherwise the kernels differ, renumbering_order_counterexample; UFL's tree hash and operand ordering are opaque/upstream); pre-hash strings, rn dicts, set iteration orders and terminal "
+              "signature data are captured from the real code and compared with the model; request pairs differing in one ingredient (incl. part='diagonal' on scalar/blocked/mixed spaces) must separate when the generated kernels differ; names are stable across "
+              "processes/hash seeds/histories."),
         design="DESIGN.md §6 C13"),
     "C14": dict(
         technique="Lean 4 proof (inductive invariant over every reachable state of an N-process transition system) + forced-schedule correspondence on the real jit.py",
